@@ -13,8 +13,12 @@ from fractions import Fraction
 import math
 
 NAN = float("nan")
-TOL = 1e-12            # relative to the column magnitude (DESIGN C15: rel 1e-12)
+EPS = 2.0 ** -52
+TOL = 256 * EPS        # 5.7e-14, ALWAYS relative to the column magnitude, never an absolute floor: one rebuild
+                       # (unscale -> re-centre -> re-scale) costs <= ~9 eps x column magnitude per cell, histories have
+                       # <= 4 rebuilds plus one in the operand; a 1e-12-sized spread of a tiny column stays visible
 SYMS = ("a", "z", "b", "L", "N")
+TSYMS = ("z", "e", "f", "H", "G", "N")      # second alphabet: tiny magnitudes and an offset-plus-tiny pair
 
 
 def alphabet(seed):
@@ -24,10 +28,20 @@ def alphabet(seed):
     return [(-1.0, 0.0, 2.0, 1e6 + 1), (-2.5, 0.0, 1e6 + 3, 1e6 + 1), (3.0, 0.0, -0.75, -2e5 + 0.5)][seed % 3]
 
 
+def tiny_alphabet(seed):
+    """(e, f, H, G): two tiny values (multiples of 2^-40 or so, ~1e-12) and a pair offset / offset + tiny whose
+    standard deviation is < 1e-9 but far above the rounding level of the offset.  All exactly representable, and so
+    are the means of up to 4 equal values: whether a trait is constant is decided exactly, never by a tolerance."""
+    return [(2.0 ** -40, 3 * 2.0 ** -40, 1024.0, 1024.0 + 2.0 ** -30),
+            (2.0 ** -38, 5 * 2.0 ** -38, 4096.0, 4096.0 + 2.0 ** -29),
+            (-(2.0 ** -41), 2.0 ** -40, -512.0, -512.0 + 2.0 ** -31)][seed % 3]
+
+
 def concrete(rows, seed):
     """nested lists of symbols -> nested lists of float | None"""
     a, z, b, L = alphabet(seed)
-    m = {"a": a, "z": z, "b": b, "L": L, "N": None}
+    e, f, H, G = tiny_alphabet(seed)
+    m = {"a": a, "z": z, "b": b, "L": L, "N": None, "e": e, "f": f, "H": H, "G": G}
 
     def rec(x):
         return m[x] if isinstance(x, str) else [rec(y) for y in x]
@@ -70,11 +84,17 @@ def make(names, grps, rows, extra_mag=None):
 
 
 def tol_cell(tx, c):
-    return TOL * max(1.0, tx[3][c])
+    return TOL * tx[3][c]
 
 
 def tol_col(taxa, c):
-    return TOL * max([1.0] + [tx[3][c] for tx in taxa])
+    return TOL * max([0.0] + [tx[3][c] for tx in taxa])
+
+
+def tol_ls(taxa, c):
+    """tolerance for a stored location / scale (mean and standard deviation are 1-Lipschitz in the per-cell
+    perturbations; numpy's own rounding of the mean is <= n eps x magnitude)"""
+    return 2 * tol_col(taxa, c)
 
 
 def raw_rows(taxa):
@@ -205,15 +225,28 @@ def column_summary(taxa, c):
         out["targmin"] = amin
     out["mean"] = s["tmean"]          # NaN-skipping mean / std: what "centred and scaled per trait" refers to
     out["std"] = s["tstd"]
+    out["var"] = s["tvar"]
     return out
 
 
-def summary_tol(fn, taxa, c):
+def numerically_constant(cs, taxa, c):
+    """exactly constant, or a spread that the rounding of the column's history may have wiped out (only then may an
+    implementation legitimately see a constant trait where the exact raw values are not all equal)"""
+    return cs["constant"] or (not cs["all_nan"] and cs["std"] <= tol_ls(taxa, c))
+
+
+def summary_tol(fn, taxa, c, cs):
     t = tol_col(taxa, c)
-    if fn == "tvar":
-        m = max([1.0] + [tx[3][c] for tx in taxa])
-        return TOL * m * m
-    return t
+    if fn in ("tmax", "tmin", "tmean"):
+        return 2 * t
+    if fn == "trange":
+        return 4 * t
+    ls = 2 * t
+    if fn == "tstd":
+        return ls
+    std = 0.0 if math.isnan(cs["std"]) else cs["std"]
+    var = 0.0 if math.isnan(cs["var"]) else cs["var"]
+    return (2 * std + ls) * ls + 1e-12 * var          # tvar
 
 
 # ----------------------------------------------------------------------------
